@@ -7,5 +7,6 @@ export GOFLAGS=-mod=mod GOPROXY=off GOSUMDB=off GOTOOLCHAIN=local
 export GOCACHE=${VERIF_GOCACHE:-$VERIF/.cache/go-build}
 mkdir -p "$VERIF/.cache/bin" "$VERIF/evidence" "$VERIF/replays"
 ( cd engine && cp /repo/go.sum go.sum && go build -o "$VERIF/.cache/bin/vcheck" ./cmd/vcheck )
+( cd /repo && go build -o "$VERIF/.cache/bin/sysl" ./cmd/sysl )
 if [ -x "$VERIF/buildov.sh" ]; then "$VERIF/buildov.sh"; fi
 echo setup ok
